@@ -40,7 +40,9 @@ TRUSTED = [
     "numpy's bit generators are deterministic functions of their state (the abstract generator of the model); "
     "generator states are compared through SHA-256 of get_state() / bit_generator.state",
     "PYTHONHASHSEED is fixed per process by ./check; cross-process equality is not part of the quick tier",
-    "pysam / pgenlib return the stored records (content comparison of VCF/BCF/PGEN outputs)",
+    "pysam / pgenlib return the stored records (content comparison of VCF/BCF/PGEN outputs); 'genotype content' = samples, "
+    "variant records, alleles and phase in order, header meta lines as a multiset (the order of the ##contig lines that "
+    "GenotypesVCF/GenotypesPLINK write follows set iteration, i.e. PYTHONHASHSEED, and is not counted as content)",
     "replicates: the genetic component is observed by running the same command once more with the noise forced to "
     "zero; comparisons of a float sum with the exact sum use a 1e-9 tolerance relative to the operands (as C09)",
 ]
@@ -212,9 +214,15 @@ def genotype_content(path):
         import pgenlib
 
         h = hashlib.sha256()
-        for ext in (".pvar", ".psam"):
-            with open(path[:-5] + ext, "rb") as f:
-                h.update(f.read())
+        # .pvar: the variant records in order; the '##' meta lines as a multiset - the ORDER of the ##contig lines
+        # follows the iteration order of a Python set of strings in GenotypesPLINK.write_variants, i.e. PYTHONHASHSEED,
+        # and is not genotype content (the property asks for identical genotype content, not identical bytes)
+        with open(path[:-5] + ".pvar", "rb") as f:
+            lines = f.read().split(b"\n")
+        meta = sorted(ln for ln in lines if ln.startswith(b"##"))
+        h.update(b"\n".join(meta) + b"\n--\n" + b"\n".join(ln for ln in lines if not ln.startswith(b"##")))
+        with open(path[:-5] + ".psam", "rb") as f:
+            h.update(f.read())
         rd = pgenlib.PgenReader(path.encode())
         nv, ns = rd.get_variant_ct(), rd.get_raw_sample_ct()
         buf = np.empty((nv, 2 * ns), dtype=np.int32)
@@ -301,6 +309,7 @@ def one_grun(inp, d, tag, mode, ref, model):
             outs.append("unreadable:" + type(e).__name__)
     outs.append("ok" if res["err"] is None else "failed:" + res["err"]["cls"])
     res["out"] = outs
+    res["raw_pvar"] = sha(open(out[:-5] + ".pvar", "rb").read()) if out.endswith(".pgen") and os.path.exists(out[:-5] + ".pvar") else None
     return res
 
 
@@ -423,6 +432,8 @@ class GenotypeRel(Relation):
                 if r["err"]:
                     out.append("run-failed:" + r["err"]["cls"])
             out.append("outputs-equal" if obs["a"]["out"] == obs["b"]["out"] else "outputs-differ")
+            if obs["a"].get("raw_pvar") != obs["b"].get("raw_pvar") and obs["a"]["out"] == obs["b"]["out"]:
+                out.append("pvar-bytes-differ-(order-of-##contig-lines)-content-equal")
         return out
 
     def shrink(self, inp):
